@@ -71,7 +71,7 @@ Qed.
 Lemma fetch_fill_ok f4 v s url kid c past :
   (f4 = false -> cf_validate_jwk (s_cf s) = v) ->
   cache_inv f4 v (s_env s :: past) c ->
-  let '(r, c') := fetch_fill s url kid c in
+  let '(r, c') := fetch_fill s url url kid c in
   cache_inv f4 v (s_env s :: past) c' /\ r = key_result (s_cf s) (s_env s) url kid.
 Proof.
   intros Hv Hinv. unfold fetch_fill, key_result.
@@ -94,7 +94,7 @@ Qed.
 Lemma get_key_c_ok f4 v s url kid c past :
   (f4 = false -> cf_validate_jwk (s_cf s) = v) ->
   cache_inv f4 v past c ->
-  let '(r, c') := get_key_c f4 s url kid c in
+  let '(r, c') := get_key_c f4 s url url kid c in
   cache_inv f4 v (s_env s :: past) c' /\
   exists env, In env (s_env s :: past) /\ (s_cache_on s = false -> env = s_env s) /\
               r = key_result (s_cf s) env url kid.
@@ -114,11 +114,11 @@ Proof.
         apply get_key_some. split; [exact Hfil|].
         destruct f4; simpl in Hok; [exact Hok|].
         unfold key_valid. rewrite (Hv eq_refl). apply Hval. reflexivity.
-      * destruct (fetch_fill s url kid c) as [r c']. destruct FF as [I R]. split; [exact I|].
+      * destruct (fetch_fill s url url kid c) as [r c']. destruct FF as [I R]. split; [exact I|].
         exists (s_env s). split; [left; reflexivity|]. split; [reflexivity|exact R].
-    + destruct (fetch_fill s url kid c) as [r c']. destruct FF as [I R]. split; [exact I|].
+    + destruct (fetch_fill s url url kid c) as [r c']. destruct FF as [I R]. split; [exact I|].
       exists (s_env s). split; [left; reflexivity|]. split; [reflexivity|exact R].
-  - destruct (fetch_fill s url kid c) as [r c']. destruct FF as [I R]. split; [exact I|].
+  - destruct (fetch_fill s url url kid c) as [r c']. destruct FF as [I R]. split; [exact I|].
     exists (s_env s). split; [left; reflexivity|]. split; [reflexivity|exact R].
 Qed.
 
@@ -170,15 +170,18 @@ Qed.
 
 (** one request: the invariant is kept and the answer is a cache-less answer against a world of the past
     (the present one when the request cannot be served from the cache) *)
-Lemma step_c_stateless f1 f2 f4 v s c past :
+Lemma step_c_stateless f1 f2 f4 f6 v s c past :
   (f4 = false -> cf_validate_jwk (s_cf s) = v) ->
+  (f6 = false -> s_tpl_url s = s_templated s) ->
   cache_inv f4 v past c ->
-  let '(r, c') := step_c f1 f2 f4 s c in
+  let '(r, c') := step_c f1 f2 f4 f6 s c in
   cache_inv f4 v (s_env s :: past) c' /\
   (exists env, In env (s_env s :: past) /\ (fresh s = true -> env = s_env s) /\ r = stateless f1 f2 s env).
 Proof.
-  intros Hv Hinv.
+  intros Hv Hu Hinv.
   assert (cache_inv f4 v (s_env s :: past) c) as Hinv' by (eapply cache_inv_mono; [|exact Hinv]; intros; right; assumption).
+  assert (forall t, curl_of f6 s t = url_of (s_templated s) t) as Hcurl.
+  { intro t. unfold curl_of. destruct f6; [reflexivity|]. rewrite (Hu eq_refl). reflexivity. }
   unfold step_c, fresh.
   destruct (s_cred s) as [| |t] eqn:Hc.
   - split; [exact Hinv'|]. exists (s_env s). split; [left; reflexivity|]. split; [reflexivity|].
@@ -196,8 +199,9 @@ Proof.
     + pose proof (stateless_token f1 f2 s t (s_env s) Hc Hsup Hobj) as St. cbv zeta in St. rewrite Hkid in St.
       destruct (fetch (s_env s) (url_of (s_templated s) t)) as [er|ks];
         (split; [exact Hinv'|]; exists (s_env s); split; [left; reflexivity|]; split; [reflexivity|symmetry; exact St]).
-    + pose proof (get_key_c_ok f4 v s (url_of (s_templated s) t) (t_kid t) c past Hv Hinv) as G.
-      destruct (get_key_c f4 s (url_of (s_templated s) t) (t_kid t) c) as [r c'].
+    + rewrite Hcurl.
+      pose proof (get_key_c_ok f4 v s (url_of (s_templated s) t) (t_kid t) c past Hv Hinv) as G.
+      destruct (get_key_c f4 s (url_of (s_templated s) t) (url_of (s_templated s) t) (t_kid t) c) as [r c'].
       destruct G as [I (env & Hin & Hoff & ->)].
       assert (stateless f1 f2 s env =
               match key_result (s_cf s) env (url_of (s_templated s) t) (t_kid t) with
@@ -218,27 +222,32 @@ Qed.
 Definition uniform_validation (v : bool) (h : list kstep) : Prop :=
   forall s, In s h -> cf_validate_jwk (s_cf s) = v.
 
-Lemma run_c_stateless f1 f2 f4 v : forall h c past,
+(** no request of the history has a template in a header only: the rendered url identifies the request *)
+Definition url_keyed (h : list kstep) : Prop := forall s, In s h -> s_tpl_url s = s_templated s.
+
+Lemma run_c_stateless f1 f2 f4 f6 v : forall h c past,
   (f4 = false -> uniform_validation v h) ->
+  (f6 = false -> url_keyed h) ->
   cache_inv f4 v past c ->
   forall pre s post, h = pre ++ s :: post ->
-  forall r, nth_error (fst (run_c f1 f2 f4 h c)) (length pre) = Some r ->
+  forall r, nth_error (fst (run_c f1 f2 f4 f6 h c)) (length pre) = Some r ->
   exists env, (In env (s_env s :: map s_env pre) \/ In env past) /\ (fresh s = true -> env = s_env s) /\
               r = stateless f1 f2 s env.
 Proof.
-  induction h as [|s0 h IH]; intros c past Hv Hinv pre s post E r Hr.
+  induction h as [|s0 h IH]; intros c past Hv Hu Hinv pre s post E r Hr.
   - destruct pre; discriminate.
   - simpl in Hr.
-    pose proof (step_c_stateless f1 f2 f4 v s0 c past (fun F => Hv F s0 (or_introl eq_refl)) Hinv) as St.
-    destruct (step_c f1 f2 f4 s0 c) as [x c'] eqn:Es. destruct St as [Hinv' (env & Hin & Hfr & Hx)].
-    destruct (run_c f1 f2 f4 h c') as [xs c''] eqn:Er. simpl in Hr.
+    pose proof (step_c_stateless f1 f2 f4 f6 v s0 c past (fun F => Hv F s0 (or_introl eq_refl))
+                  (fun F => Hu F s0 (or_introl eq_refl)) Hinv) as St.
+    destruct (step_c f1 f2 f4 f6 s0 c) as [x c'] eqn:Es. destruct St as [Hinv' (env & Hin & Hfr & Hx)].
+    destruct (run_c f1 f2 f4 f6 h c') as [xs c''] eqn:Er. simpl in Hr.
     destruct pre as [|p pre]; simpl in *.
     + injection E as -> ->. injection Hr as <-. exists env. split; [|split; assumption].
       destruct Hin as [<-|Hin]; [left; left; reflexivity | right; exact Hin].
     + injection E as -> ->.
-      assert (nth_error (fst (run_c f1 f2 f4 (pre ++ s :: post) c')) (length pre) = Some r) as Hr' by (rewrite Er; exact Hr).
-      destruct (IH c' (s_env p :: past) (fun F s' H => Hv F s' (or_intror H)) Hinv' pre s post eq_refl r Hr')
-        as (env' & Hin' & Hfr' & Hr'').
+      assert (nth_error (fst (run_c f1 f2 f4 f6 (pre ++ s :: post) c')) (length pre) = Some r) as Hr' by (rewrite Er; exact Hr).
+      destruct (IH c' (s_env p :: past) (fun F s' H => Hv F s' (or_intror H)) (fun F s' H => Hu F s' (or_intror H))
+                  Hinv' pre s post eq_refl r Hr') as (env' & Hin' & Hfr' & Hr'').
       exists env'. split; [|split; assumption].
       destruct Hin' as [[<-|Hin']|[<-|Hin']].
       * left; left; reflexivity.
@@ -251,38 +260,31 @@ Qed.
 Definition worlds (pre : list kstep) (s : kstep) : list kenv := s_env s :: map s_env pre.
 
 (** the statement: the answer to request [s] (after the requests [pre]) is the cache-less authenticator's
-    answer against the key set that is or was published at the rendered key-set URL of the request's OWN
-    token, validated with the request's OWN settings — the present key set if the request cannot be served
-    from the cache *)
+    answer against the key set that is or was published for the key-set request (url and headers) rendered for
+    the request's OWN token, validated with the request's OWN settings — the present key set if the request
+    cannot be served from the cache *)
 Definition judged_statelessly (f1 f2 : bool) (pre : list kstep) (s : kstep) (r : result) : Prop :=
   exists env, In env (worlds pre s) /\ (fresh s = true -> env = s_env s) /\ r = stateless f1 f2 s env.
 
-Theorem history_stateless_gen f1 f2 f4 v h pre s post r :
+Theorem history_stateless_gen f1 f2 f4 f6 v h pre s post r :
   (f4 = false -> uniform_validation v h) ->
+  (f6 = false -> url_keyed h) ->
   h = pre ++ s :: post ->
-  nth_error (run_history f1 f2 f4 h) (length pre) = Some r ->
+  nth_error (run_history f1 f2 f4 f6 h) (length pre) = Some r ->
   judged_statelessly f1 f2 pre s r.
 Proof.
-  intros Hv E Hr. unfold run_history in Hr.
+  intros Hv Hu E Hr. unfold run_history in Hr.
   assert (cache_inv f4 v [] []) as Hinv by (intros url kid ttl k H; discriminate).
-  destruct (run_c_stateless f1 f2 f4 v h [] [] Hv Hinv pre s post E r Hr) as (env & [Hin|[]] & Hfr & Hx).
+  destruct (run_c_stateless f1 f2 f4 f6 v h [] [] Hv Hu Hinv pre s post E r Hr) as (env & [Hin|[]] & Hfr & Hx).
   exists env. split; [exact Hin|]. split; assumption.
 Qed.
 
-(** with the repair of C05-F4 (cached keys are validated with the settings at hand): for every history *)
+(** with the repair of C05-F6 (rendered header values in the cache key): for every history *)
 Theorem history_stateless_fixed f1 f2 h pre s post r :
   h = pre ++ s :: post ->
-  nth_error (run_history f1 f2 true h) (length pre) = Some r ->
+  nth_error (run_history f1 f2 true true h) (length pre) = Some r ->
   judged_statelessly f1 f2 pre s r.
-Proof. apply (history_stateless_gen f1 f2 true true). discriminate. Qed.
-
-(** the code as it is: for histories whose requests all validate JWK certificates alike ... *)
-Theorem history_stateless f1 f2 v h pre s post r :
-  uniform_validation v h ->
-  h = pre ++ s :: post ->
-  nth_error (run_history f1 f2 false h) (length pre) = Some r ->
-  judged_statelessly f1 f2 pre s r.
-Proof. intro Hv. apply (history_stateless_gen f1 f2 false v). intros _. exact Hv. Qed.
+Proof. apply (history_stateless_gen f1 f2 true true true); discriminate. Qed.
 
 Definition result_eqb (a b : result) : bool :=
   match a, b with
@@ -303,34 +305,46 @@ Proof.
   - destruct e, e'; try discriminate; reflexivity.
 Qed.
 
-(** C05-F4 shows on exactly the histories on which the unvalidated reuse of a cached key changes an answer *)
-Definition guard_F4 (f1 f2 : bool) (h : list kstep) : bool :=
-  negb (list_eqb result_eqb (run_history f1 f2 false h) (run_history f1 f2 true h)).
-
-(** ... and for all histories on which C05-F4 does not show *)
-Theorem history_stateless_guarded f1 f2 h pre s post r :
-  guard_F4 f1 f2 h = false ->
-  h = pre ++ s :: post ->
-  nth_error (run_history f1 f2 false h) (length pre) = Some r ->
-  judged_statelessly f1 f2 pre s r.
+Lemma results_eqb_eq (l l' : list result) : list_eqb result_eqb l l' = true -> l = l'.
 Proof.
-  intros G E Hr. apply negb_false_iff in G.
-  assert (run_history f1 f2 false h = run_history f1 f2 true h) as Eq.
-  { revert G. generalize (run_history f1 f2 false h) (run_history f1 f2 true h).
-    induction l as [|a l IH]; intros [|b l'] G; simpl in G; try discriminate; [reflexivity|].
-    apply andb_true_iff in G as [G1 G2]. apply result_eqb_eq in G1. rewrite G1, (IH l' G2). reflexivity. }
-  rewrite Eq in Hr. exact (history_stateless_fixed f1 f2 h pre s post r E Hr).
+  revert l'. induction l as [|a l IH]; intros [|b l'] G; simpl in G; try discriminate; [reflexivity|].
+  apply andb_true_iff in G as [G1 G2]. apply result_eqb_eq in G1. rewrite G1, (IH l' G2). reflexivity.
 Qed.
 
-Theorem history_stateless_either f1 f2 h pre s post r :
-  (exists v, uniform_validation v h) \/ guard_F4 f1 f2 h = false ->
+(** C05-F6 shows on exactly the histories on which keying the cache by the rendered url alone changes an answer *)
+Definition guard_F6 (f1 f2 : bool) (h : list kstep) : bool :=
+  negb (list_eqb result_eqb (run_history f1 f2 true false h) (run_history f1 f2 true true h)).
+
+(** the code as it is: for histories without header-only templates, and for all on which C05-F6 does not show *)
+Theorem history_stateless f1 f2 h pre s post r :
+  url_keyed h \/ guard_F6 f1 f2 h = false ->
   h = pre ++ s :: post ->
-  nth_error (run_history f1 f2 false h) (length pre) = Some r ->
+  nth_error (run_history f1 f2 true false h) (length pre) = Some r ->
   judged_statelessly f1 f2 pre s r.
 Proof.
-  intros [[v Hv]|G] E Hr.
-  - exact (history_stateless f1 f2 v h pre s post r Hv E Hr).
-  - exact (history_stateless_guarded f1 f2 h pre s post r G E Hr).
+  intros [Hu|G] E Hr.
+  - apply (history_stateless_gen f1 f2 true false true h pre s post r); try assumption; [discriminate|]. intros _. exact Hu.
+  - apply negb_false_iff, results_eqb_eq in G. rewrite G in Hr.
+    exact (history_stateless_fixed f1 f2 h pre s post r E Hr).
+Qed.
+
+(** C05-F4 showed (before d20d7cd) on exactly the histories on which the unvalidated reuse of a cached key
+    changes an answer *)
+Definition guard_F4 (f1 f2 : bool) (h : list kstep) : bool :=
+  negb (list_eqb result_eqb (run_history f1 f2 false false h) (run_history f1 f2 true false h)).
+
+(** the code as it was before d20d7cd *)
+Theorem history_stateless_either f1 f2 h pre s post r :
+  (exists v, uniform_validation v h) \/ guard_F4 f1 f2 h = false ->
+  url_keyed h ->
+  h = pre ++ s :: post ->
+  nth_error (run_history f1 f2 false false h) (length pre) = Some r ->
+  judged_statelessly f1 f2 pre s r.
+Proof.
+  intros [[v Hv]|G] Hu E Hr.
+  - apply (history_stateless_gen f1 f2 false false v h pre s post r); try assumption; intros _; assumption.
+  - apply negb_false_iff, results_eqb_eq in G. rewrite G in Hr.
+    exact (history_stateless f1 f2 h pre s post r (or_introl Hu) E Hr).
 Qed.
 
 Lemma judged_statelessly_unfold f1 f2 pre s r :
@@ -339,14 +353,15 @@ Lemma judged_statelessly_unfold f1 f2 pre s r :
 Proof. reflexivity. Qed.
 
 (** with key sets that do not change the cache is invisible *)
-Theorem cache_transparent f1 f2 f4 v h pre s post r env0 :
+Theorem cache_transparent f1 f2 f4 f6 v h pre s post r env0 :
   (f4 = false -> uniform_validation v h) ->
+  (f6 = false -> url_keyed h) ->
   (forall s', In s' h -> s_env s' = env0) ->
   h = pre ++ s :: post ->
-  nth_error (run_history f1 f2 f4 h) (length pre) = Some r ->
+  nth_error (run_history f1 f2 f4 f6 h) (length pre) = Some r ->
   r = stateless f1 f2 s env0.
 Proof.
-  intros Hv He E Hr. destruct (history_stateless_gen f1 f2 f4 v h pre s post r Hv E Hr) as (env & Hin & _ & ->).
+  intros Hv Hu He E Hr. destruct (history_stateless_gen f1 f2 f4 f6 v h pre s post r Hv Hu E Hr) as (env & Hin & _ & ->).
   f_equal. destruct Hin as [<-|Hin].
   - apply He. subst h. apply in_or_app. right. left. reflexivity.
   - apply in_map_iff in Hin as (s' & <- & Hs'). apply He. subst h. apply in_or_app. left. exact Hs'.
@@ -387,20 +402,19 @@ Proof.
 Qed.
 
 Theorem history_spec h pre s post r :
-  (exists v, uniform_validation v h) \/ guard_F4 true true h = false ->
+  url_keyed h \/ guard_F6 true true h = false ->
   h = pre ++ s :: post ->
-  nth_error (run_history true true false h) (length pre) = Some r ->
+  nth_error (run_history true true true false h) (length pre) = Some r ->
   sane_clock (s_cf s) (s_now s) -> open_guards (s_cf s) (s_cred s) = false ->
   meets_spec pre s r.
 Proof.
-  intros [[v Hv]|G] E Hr Hs G3; apply judged_meets_spec; try assumption.
-  - exact (history_stateless true true v h pre s post r Hv E Hr).
-  - exact (history_stateless_guarded true true h pre s post r G E Hr).
+  intros G E Hr Hs G3. apply judged_meets_spec; try assumption.
+  exact (history_stateless true true h pre s post r G E Hr).
 Qed.
 
 Theorem history_spec_fixed h pre s post r :
   h = pre ++ s :: post ->
-  nth_error (run_history true true true h) (length pre) = Some r ->
+  nth_error (run_history true true true true h) (length pre) = Some r ->
   sane_clock (s_cf s) (s_now s) -> open_guards (s_cf s) (s_cred s) = false ->
   meets_spec pre s r.
 Proof.
@@ -410,7 +424,7 @@ Qed.
 
 Theorem history_fixed_both h pre s post r :
   h = pre ++ s :: post ->
-  nth_error (run_history true true true h) (length pre) = Some r ->
+  nth_error (run_history true true true true h) (length pre) = Some r ->
   (judged_statelessly true true pre s r) /\
   (sane_clock (s_cf s) (s_now s) -> open_guards (s_cf s) (s_cred s) = false -> meets_spec pre s r).
 Proof.
@@ -434,14 +448,14 @@ Definition exc_tok (iss kid : string) (mat : N) : cred :=
                            c_fields := [("iss", iss); ("sub", "alice")] |};
             t_sig := [mat] |}.
 Definition exc_step (on : bool) (env : kenv) (cr : cred) : kstep :=
-  {| s_cf := exc_cf; s_cache_on := on; s_ttl := -1; s_templated := true; s_env := env; s_now := secs 1790000000; s_cred := cr |}.
+  {| s_cf := exc_cf; s_cache_on := on; s_ttl := -1; s_templated := true; s_tpl_url := true; s_env := env; s_now := secs 1790000000; s_cred := cr |}.
 Close Scope string_scope.
 
 (** two tenants publish different keys under the same kid behind one templated endpoint: after tenant-a's key
     has been cached, a token naming tenant-b but signed with tenant-a's key is still rejected, and tenant-b's
     own tokens are still accepted (the seeded change C05-1 got both wrong) *)
 Example cache_cross_tenant :
-  run_history true true true
+  run_history true true true false
     [exc_step true (exc_env 3 4) (exc_tok "tenant-a" "k1" 3);
      exc_step true (exc_env 3 4) (exc_tok "tenant-b" "k1" 3);
      exc_step true (exc_env 3 4) (exc_tok "tenant-b" "k1" 4)]
@@ -451,7 +465,7 @@ Proof. vm_compute. reflexivity. Qed.
 (** what the cache does change: after a rotation the cached key stays in use for its own url and kid (the old
     key's tokens pass, the new key's do not yet) unless the token has no kid or the cache is off *)
 Example cache_rotation :
-  run_history true true true
+  run_history true true true false
     [exc_step true (exc_env 3 4) (exc_tok "tenant-a" "k1" 3);
      exc_step true (exc_env 4 4) (exc_tok "tenant-a" "k1" 3);
      exc_step true (exc_env 4 4) (exc_tok "tenant-a" "k1" 4);
@@ -469,17 +483,38 @@ Definition exc_bad_env : kenv :=
 Definition exc_who (strict : bool) : kstep :=
   {| s_cf := {| cf_proto := cf_proto exc_cf; cf_rule := None; cf_md_issuer := ""; cf_validate_jwk := strict;
                 cf_id_from := "sub"; cf_remote := RUp |};
-     s_cache_on := true; s_ttl := -1; s_templated := true; s_env := exc_bad_env; s_now := secs 1790000000;
+     s_cache_on := true; s_ttl := -1; s_templated := true; s_tpl_url := true; s_env := exc_bad_env; s_now := secs 1790000000;
      s_cred := exc_tok "tenant-a" "k1" 3 |}.
 
 Theorem F4_refuted :
   let h := [exc_who true; exc_who false; exc_who true] in
   guard_F4 true true h = true /\
-  run_history true true false h = [Failed EKey; Accepted "alice"; Accepted "alice"] /\
-  run_history true true true h = [Failed EKey; Accepted "alice"; Failed EKey] /\
+  run_history true true false false h = [Failed EKey; Accepted "alice"; Accepted "alice"] /\
+  run_history true true true false h = [Failed EKey; Accepted "alice"; Failed EKey] /\
   ~ meets_spec [exc_who true; exc_who false] (exc_who true) (Accepted "alice").
 Proof.
   split; [vm_compute; reflexivity|]. split; [vm_compute; reflexivity|]. split; [vm_compute; reflexivity|].
   intros [S _]. destruct (S "alice"%string eq_refl) as (env & Hin & _ & Hspec).
   simpl in Hin. destruct Hin as [<-|[<-|[<-|[]]]]; vm_compute in Hspec; discriminate.
+Qed.
+
+(** C05-F6: one key-set endpoint for two tenants, the tenant travels in a header templated with the token's
+    issuer ({{ .TokenIssuer }}), the url is the same; both tenants use the kid k1 for different keys.  After
+    tenant-a's key has been cached, a token that names tenant-b but is signed with tenant-a's key is accepted
+    (the cache key has no rendered header values), although tenant-b's key set does not verify it; and
+    tenant-b's own token is refused.  With the repair both are judged against tenant-b's key set. *)
+Definition exc_hdr (cr : cred) : kstep :=
+  {| s_cf := exc_cf; s_cache_on := true; s_ttl := -1; s_templated := true; s_tpl_url := false;
+     s_env := exc_env 3 4; s_now := secs 1790000000; s_cred := cr |}.
+
+Theorem F6_refuted :
+  let h := [exc_hdr (exc_tok "tenant-a" "k1" 3); exc_hdr (exc_tok "tenant-b" "k1" 3); exc_hdr (exc_tok "tenant-b" "k1" 4)] in
+  guard_F6 true true h = true /\
+  run_history true true true false h = [Accepted "alice"; Accepted "alice"; Failed ESignature] /\
+  run_history true true true true h = [Accepted "alice"; Failed ESignature; Accepted "alice"] /\
+  ~ meets_spec [exc_hdr (exc_tok "tenant-a" "k1" 3)] (exc_hdr (exc_tok "tenant-b" "k1" 3)) (Accepted "alice").
+Proof.
+  split; [vm_compute; reflexivity|]. split; [vm_compute; reflexivity|]. split; [vm_compute; reflexivity|].
+  intros [S _]. destruct (S "alice"%string eq_refl) as (env & Hin & _ & Hspec).
+  simpl in Hin. destruct Hin as [<-|[<-|[]]]; vm_compute in Hspec; discriminate.
 Qed.
